@@ -96,6 +96,17 @@ Lemma c09_go_acronym_target_refuted :
   c09_witness Go [] [lit "id"] w_prog (go_file_decls uc_exec (w_go [lit "id"]) (c09_reconciled w_prog)) "C09-go-acronym-target" = true.
 Proof. vm_compute. reflexivity. Qed.
 
+(* enum E { XyZwQr { a: u32 }, Other(u32) } under uppercase_acronyms = [xy, yZw, wQr]: the helper struct is
+   defined EXYZWQrInner (two passes over the whole name) and referred to as EXYZWQRInner (the variant name
+   gets a third pass) *)
+Definition w_prog_acr : parsed :=
+  w_parsed [] [ EAlgebraic (lit "type") (lit "content")
+                  (w_esh "E" "E" [] [VAnon [w_field "a" (RPrim PU32)] (w_vsh "XyZwQr"); VTuple (RPrim PU32) (w_vsh "Other")]) ] [] [].
+Definition w_acrs : list str := [lit "xy"; lit "yZw"; lit "wQr"].
+Lemma c09_go_acronym_inner_refuted :
+  c09_witness Go [] w_acrs w_prog_acr (go_file_decls uc_exec (w_go w_acrs) (c09_reconciled w_prog_acr)) "C09-go-acronym-inner" = true.
+Proof. vm_compute. reflexivity. Qed.
+
 (* ---------------------------------------------------------------- non-vacuity *)
 (* a program with mutual references, a generic struct, a tagged enum with a struct variant, an alias,
    one renamed struct, under a prefix: inside the domain, in no class, and the model generates it *)
@@ -148,7 +159,7 @@ Lemma c09_no_rename_known (L : lang) (pfx : str) (pd : parsed) :
   known_C09 L pfx [] pd = None.
 Proof.
   intros Hren Hinl. unfold known_C09. apply c09_first_all_none. intros x Hx. unfold c09_classes in Hx.
-  apply in_app_iff in Hx as [Hx|Hx]; [|apply in_app_iff in Hx as [Hx|Hx]].
+  apply in_app_iff in Hx as [Hx|Hx]; [|apply in_app_iff in Hx as [Hx|Hx]; [|apply in_app_iff in Hx as [Hx|Hx]]].
   - apply in_flat_map in Hx as (tp & _ & Hx). unfold c09_tpos_classes in Hx. apply in_flat_map in Hx as (fi & _ & Hx).
     destruct (c09_lookup pd (snd fi)) as [e|] eqn:Hlk; [|destruct Hx].
     destruct (c09_lookup_in pd _ e Hlk) as (He & _ & _).
@@ -159,4 +170,8 @@ Proof.
       unfold c09_parent_site_class, c09_inner_site_class; rewrite ?K; try rewrite (Hren e He); try reflexivity;
       destruct (c09_parent_which L _); reflexivity.
   - apply in_map_iff in Hx as (a & <- & Ha). apply Hinl. exact Ha.
+  - (* no acronyms: the conversion is the identity *)
+    apply in_flat_map in Hx as (e & _ & Hx). cbv zeta in Hx. apply in_flat_map in Hx as (v & _ & Hx).
+    destruct v as [?|? ?|fs vsh]; [destruct Hx|destruct Hx|]. destruct Hx as [<-|[]].
+    unfold c09_inner_acronym_class, c09_acr_conv. destruct L; try reflexivity. cbn [fold_left]. rewrite str_eqb_refl. reflexivity.
 Qed.
